@@ -2,7 +2,7 @@
 use crate::common::*;
 use crate::domains::*;
 use crate::refserde;
-use crate::tree::{self, Builder, Enc, Sharing, T, TreeSpace, atom, cons};
+use crate::tree::{self, Builder, Enc, Shape, Sharing, T, TreeSpace, atom, cons, shapes};
 use clvmr::allocator::{Allocator, NodePtr};
 use clvmr::serde::{is_canonical_serialization, node_from_bytes_backrefs, node_from_bytes_backrefs_old, node_to_bytes_backrefs};
 use serde_json::json;
@@ -109,6 +109,69 @@ pub fn run(ctx: &Ctx) -> Report {
         });
         rep.absorb(acc);
     }
+    // stream-derived trees: every well-formed back-reference token stream with up to L leaves over
+    // {nil, 'aaaa', 'llll', back-reference with path 1..=P} is decoded by the REFERENCE decoder; the tree it
+    // denotes (repeated sub-trees at every depth, sub-trees equal to the parse stack itself, references to
+    // references) goes through the same round-trip oracle.
+    {
+        fn emit(shape: &Shape, leaves: &[&Vec<u8>], idx: &mut usize, out: &mut Vec<u8>) {
+            match shape {
+                Shape::L => {
+                    out.extend_from_slice(leaves[*idx]);
+                    *idx += 1;
+                }
+                Shape::N(a, b) => {
+                    out.push(0xff);
+                    emit(a, leaves, idx, out);
+                    emit(b, leaves, idx, out);
+                }
+            }
+        }
+        let plans: Vec<(usize, u8)> = if ctx.quick() { vec![(5, 7)] } else { vec![(6, 7), (5, 15)] };
+        for (maxl, maxpath) in plans {
+            let mut toks: Vec<Vec<u8>> = vec![vec![0x80], vec![0x84, b'a', b'a', b'a', b'a'], vec![0x84, b'l', b'l', b'l', b'l']];
+            for p in 1..=maxpath {
+                toks.push(vec![0xfe, p]);
+            }
+            let k = toks.len() as u64;
+            for nl in 2..=maxl {
+                let shp = shapes(nl);
+                let per = k.pow(nl as u32);
+                let total = shp.len() as u64 * per;
+                let acc = par_for(ctx, total, 1 << 10, |i| format!("stream-derived leaves={nl} paths<={maxpath} #{i}"), |i, acc| {
+                    thread_local! { static A: std::cell::RefCell<Allocator> = std::cell::RefCell::new(Allocator::new()); }
+                    let sh = &shp[(i / per) as usize];
+                    let mut d = i % per;
+                    let mut leaves: Vec<&Vec<u8>> = vec![&toks[0]; nl];
+                    for j in (0..nl).rev() {
+                        leaves[j] = &toks[(d % k) as usize];
+                        d /= k;
+                    }
+                    let mut stream = vec![];
+                    let mut idx = 0;
+                    emit(sh, &leaves, &mut idx, &mut stream);
+                    acc.inc("streams_enumerated");
+                    if !stream.contains(&0xfe) {
+                        return; // plain trees are covered by the TREES spaces
+                    }
+                    let Some(dec) = refserde::deser_backrefs(&stream) else { return };
+                    if dec.consumed != stream.len() {
+                        return;
+                    }
+                    acc.inc("stream_derived_trees");
+                    let t = dec.tree;
+                    A.with(|a| {
+                        let a = &mut a.borrow_mut();
+                        let cp = a.checkpoint();
+                        let n = Builder::new(Sharing::HashCons, Enc::Inline).build(a, &t);
+                        check_tree(a, n, &t, &format!("tree {} (denoted by stream {}) sharing=HashCons", t.hex(), hx(&stream)), &sl[..2], acc);
+                        a.restore_checkpoint(&cp);
+                    });
+                });
+                rep.absorb(acc);
+            }
+        }
+    }
     // families: lists of n equal items (path lengths crossing 8/16 bits), (x . x) doubling
     let mut acc = Acc::default();
     let nmax = ctx.pick(80usize, 300);
@@ -162,7 +225,7 @@ pub fn run(ctx: &Ctx) -> Report {
     rep.states = rep.evaluations;
     rep.transitions = rep.evaluations * (sl.len() as u64 + 6);
     rep.traces = rep.evaluations;
-    rep.rule = format!("every tree of TREES({}, {{nil,01,'abcd',40-byte}}) and TREES({}, A6) in fresh and hash-consed form, lists of 1..{nmax} equal/mixed items and (x . x) doubling to depth {dmax}; oracle: new, legacy and reference decoders give the tree back, output canonical, len <= classic, identical across two runs and {} hash salts (hook H3), ser(decode(out)) == out. Non-trivial = outputs strictly shorter than classic (contain a back-reference).", ctx.pick(5, 6), ctx.pick(4, 5), sl.len());
+    rep.rule = format!("every tree of TREES({}, {{nil,01,'abcd',40-byte}}) and TREES({}, A6) in fresh and hash-consed form, every tree denoted by a well-formed back-reference token stream of <= 5|6 leaves over {{nil,'aaaa','llll', paths 1..7|15}} (decoded by the reference decoder), lists of 1..{nmax} equal/mixed items and (x . x) doubling to depth {dmax}; oracle: new, legacy and reference decoders give the tree back, output canonical, len <= classic, identical across two runs and {} hash salts (hook H3), ser(decode(out)) == out. Non-trivial = outputs strictly shorter than classic (contain a back-reference).", ctx.pick(5, 6), ctx.pick(4, 5), sl.len());
     rep.assumptions.push("reference decoder refserde.rs; salts are injected through the verif-hooks salt override".into());
     rep
 }
